@@ -194,7 +194,7 @@ func main() {
 	for _, v := range []uint32{0xffffffff, 0x80000003, 0x7, 0x10002, 0xfffffffe} {
 		fmt.Fprintf(h, "%d=%s;", v, seccomp.FilterFlag(v).String())
 	}
-	for _, a := range []uint32{0, 0x80000000, 0x30000, 0x50000, 0x7ff00000, 0x7ffc0000, 0x7fff0000, 0x7fc00000, 1, 0x50001} {
+	for _, a := range []uint32{0, 0x80000000, 0x30000, 0x50000, 0x7ff00000, 0x7ffc0000, 0x7fff0000, 0x7fc00000, 1, 0x50001, 0x7fff0001, 0x7fffffff, 0x80000001, 0x8000ffff, 0x90000000, 0xffff0000, 0xffffffff} {
 		fmt.Fprintf(h, "%d=%s;", a, seccomp.Action(a).String())
 	}
 	fmt.Printf("texts=%x\n", h.Sum(nil))
